@@ -597,6 +597,16 @@ fn decorrelate_scalar_subquery(
         }
     }
 
+    // The other operand of the comparison is evaluated over the join output.
+    // An unqualified name in it that the subquery side exposes too (its
+    // correlation key: `b > (SELECT MIN(x) FROM w WHERE w.b = t.a)`) would
+    // bind to the wrong side there; such statements stay with the row-by-row
+    // executor.
+    let right_names: HashSet<String> = wrapper_fields.iter().map(|f| f.name.clone()).collect();
+    if references_columns(other_expr, &right_names) {
+        return Ok(None);
+    }
+
     let wrapped_right = LogicalPlan::Project(ProjectNode {
         input: Arc::new(join_right),
         exprs: wrapper_exprs,
